@@ -105,6 +105,10 @@ func (*Paragraph).Update
     invariant forall k string :: has(ret.Values, k) <==> idxOf(p.Order, k, rangeindex#1 + 1) >= 0
     invariant forall k string :: has(seen, k) <==> has(ret.Values, k)
     invariant forall k string :: has(ret.Values, k) ==> ret.Values[k] == p.Values[k]
+    invariant pwf(ret.Values, ret.Order)
+      by { forall k string { idxOf_prefix(p.Order, ret.Order, k, len(ret.Order));
+                             idxOf_prefix(at(L1.head, ret.Order), ret.Order, k, len(at(L1.head, ret.Order))) };
+           forall i int { idxOf_found(p.Order, i, len(ret.Order)) } }
     decreases len(p.Order) - rangeindex#1
   loop 2:
     invariant -1 <= rangeindex#2 && rangeindex#2 < len(other.Order)
